@@ -24,6 +24,17 @@ type LoopSpec struct {
 	Invariants  []Clause
 	Modifies    []*Expr
 	HasModifies bool
+	Runs        []LoopRun
+}
+
+// LoopRun: "loop N runs loop K [Cxx ...]" - every completed iteration of loop N (every
+// path from its body back to its head) passes through the head of the nested loop K.
+// A structural obligation, decided on the control-flow graph.
+type LoopRun struct {
+	Inner  int
+	Serves []string
+	Line   string
+	Src    string
 }
 
 type Contract struct {
@@ -326,8 +337,25 @@ func (ss *SpecSet) readSpecFile(path, pkg string) error {
 				}
 				break
 			}
+			if k2 == "runs" {
+				w, r4 := splitWord(r3)
+				ks, r5 := splitWord(r4)
+				k, err := strconv.Atoi(ks)
+				if w != "loop" || err != nil {
+					return perr(fmt.Errorf("expected 'loop N runs loop K [Cxx ...]'"))
+				}
+				run := LoopRun{Inner: k, Line: where, Src: strings.TrimSpace(rest)}
+				if tags := strings.TrimSpace(r5); strings.HasPrefix(tags, "[") && strings.HasSuffix(tags, "]") {
+					run.Serves = strings.Fields(tags[1 : len(tags)-1])
+				}
+				if cur.Loops[n] == nil {
+					cur.Loops[n] = &LoopSpec{}
+				}
+				cur.Loops[n].Runs = append(cur.Loops[n].Runs, run)
+				break
+			}
 			if k2 != "invariant" {
-				return perr(fmt.Errorf("expected 'invariant' or 'modifies'"))
+				return perr(fmt.Errorf("expected 'invariant', 'modifies' or 'runs'"))
 			}
 			cl, err := parseClause(r3, where)
 			if err != nil {
